@@ -401,6 +401,36 @@ def run(ch: Checker) -> None:
     ch.rule('C14.11', 'the destination is derived from this request\'s own target: Url / HttpParser objects are mutable, so the functions that build them are not memoised (expected 0 sites)', 1)
     from .common import memoised_objects_check
     memoised_objects_check(ch, 'C14.11', ('Url', 'HttpParser', 'ChunkParser', 'WebsocketFrame'))
+    ch.rule('C14.13', 'who may write the destination: the host / port a request names are derived by HttpParser from its request line and written nowhere else -- no plugin or handler stores into <request>.host / .port / ._url '
+                      '(the rebuild and the connect both read them) (expected 0 sites)', 1)
+    n13 = 0
+    for fn13 in prog.all_functions('proxy', include_inlined=True):
+        if fn13.module.name.startswith('proxy.testing') or (fn13.cls is not None and fn13.cls.name == 'HttpParser'):
+            continue
+        for st13 in walk_no_nested(fn13.node):
+            tgs13 = st13.targets if isinstance(st13, ast.Assign) else ([st13.target] if isinstance(st13, (ast.AugAssign, ast.AnnAssign)) else [])
+            flat13 = [y for t_ in tgs13 for y in (t_.elts if isinstance(t_, (ast.Tuple, ast.List)) else [t_])]
+            for t_ in flat13:
+                if isinstance(t_, ast.Attribute) and t_.attr in ('host', 'port', '_url') and (attr_chain(t_.value) or '').split('.')[-1] in ('request', 'pipeline_request', 'req'):
+                    n13 += 1
+                    ch.bad('C14.13', fn13, st13, '%s stores into %s: the connection is opened to, and the request line rebuilt from, these fields -- once something other than the request line feeds them '
+                           '(a Host header, a default) the origin is dialled at, or told, a destination the client did not name' % (fn13.qualname, norm(t_)))
+    if n13 == 0:
+        ch.ok('C14.13', None, 'destination fields', 'nothing outside HttpParser stores into <request>.host / .port / ._url', module_rel='proxy/')
+    ch.rule('C14.14', 'TcpServerConnection.connect dials the address it is given: no `raise` of its own precedes new_socket_connection (a range test there refuses ports the parser accepted)', 1)
+    tsc = prog.own_method('TcpServerConnection', 'connect')
+    g14 = cfg_of(tsc, prog, exc_edges=False)
+    bad14 = None
+    n14 = 0
+    for p in fpaths(g14):
+        ex14 = p.executed()
+        dial = [i_ for i_, nd_, lab_ in ex14 if nd_.kind == 'stmt' and nd_.ast is not None and any(isinstance(c_, ast.Call) and (attr_chain(c_.func) or '').split('.')[-1] in ('new_socket_connection', 'create_connection', 'connect') for c_ in walk_no_nested(nd_.ast))]
+        n14 += 1
+        first = dial[0] if dial else 10 ** 9
+        for i_, nd_, lab_ in ex14:
+            if nd_.kind == 'stmt' and isinstance(nd_.ast, ast.Raise) and i_ < first:
+                bad14 = ('TcpServerConnection.connect raises (%s) before dialling, on a test of its own: %s' % (norm(nd_.ast)[:60], '; '.join('%s=%s' % kv for kv in list(allfacts(p, i_).items())[-2:])[:120]), p.describe())
+    ch.check(bad14 is None and n14 > 0, 'C14.14', tsc, 'no admission test before dialling', 'every path hands the address to the socket layer (%d path(s))' % n14, bad14[0] if bad14 else 'no path', witness=bad14[1] if bad14 else None)
     ch.import_rules('C02', {'C02.2': 'C14.8'}, 'the path the origin receives is the request target\'s path, unedited')
     ch.import_rules('C04', {'C04.4': 'C14.10'}, 'the request line forwarded for a later request is that request\'s own only if the follow-up parser is fresh for each request')
 
